@@ -849,3 +849,57 @@ if __name__ == "__main__":
     job = json.loads(sys.stdin.read())
     res = JOBS[job["job"]](job)
     sys.stdout.write("\n@@RESULT@@" + json.dumps(res, default=str))
+
+def check_preset_weapon_potential(seed, n=3):
+    """PresetOptimizer.calculate_optimal_weapon_potential with a DIFFERENT tier triple per weaponry slot (what the Legendary18 /
+    EpicUnique baselines configure): every line of every slot must come from the table of that slot's own tier at that position,
+    and the triple must be the arg-max over the per-slot candidate products (independent brute force)."""
+    import itertools
+    import random
+    from simaple.core import JobType, Stat
+    from simaple.core.damage import INTBasedDamageLogic, STRBasedDamageLogic
+    from simaple.gear.potential import PotentialTier
+    from simaple.optimizer import weapon_potential_optimizer as W
+    from simaple.optimizer.preset import PresetOptimizer
+    rng = random.Random(seed)
+    findings, runs = [], 0
+    tiers_pool = [PotentialTier.epic, PotentialTier.unique, PotentialTier.legendary]
+    for _ in range(n):
+        logic = rng.choice([STRBasedDamageLogic, INTBasedDamageLogic])(attack_range_constant=1.34, mastery=0.9)
+        ref = Stat(STR=4000, INT=4000, DEX=1000, LUK=1000, attack_power=2000, magic_attack=2000, attack_power_multiplier=30,
+                   magic_attack_multiplier=30, boss_damage_multiplier=rng.choice([100, 250]), ignored_defence=rng.choice([70, 85, 93]),
+                   critical_rate=80, critical_damage=40)
+        triples = tuple(tuple(sorted((rng.choice(tiers_pool) for _ in range(3)), key=tiers_pool.index, reverse=True)) for _ in range(3))
+        if len(set(triples)) == 1:
+            triples = (triples[0], (PotentialTier.unique, PotentialTier.epic, PotentialTier.epic), triples[2])
+        opt = PresetOptimizer(union_block_count=37, default_stat=Stat(), level=275, damage_logic=logic, character_job_type=JobType.adele,
+                              alternate_character_job_types=[], link_count=13, artifact_level=40)
+        got = opt.calculate_optimal_weapon_potential(ref, triples)
+        runs += 1
+        desc = {"tiers": [[t.value for t in tr] for tr in triples], "reference_stat": ref.short_dict(), "logic": type(logic).__name__}
+        for slot, (pot, tr) in enumerate(zip(got, triples)):
+            lines = [o.stat for o in pot.options]
+            for k, (line, tier) in enumerate(zip(lines, tr)):
+                if line not in W._WEAPON_POTENTIALS[tier]:
+                    findings.append(dict(desc, what="C19: a weapon-potential line is not offered by the tier configured for its slot (per-slot limit)",
+                                         slot=["weapon", "sub-weapon", "emblem"][slot], line=line.short_dict(), position=k, tier=tier.value))
+        if findings:
+            break
+        # independent arg-max over the per-slot products (same legality rules: at most 2 boss / 2 IED lines per item, no boss on the emblem)
+        def cands(tr, emblem):
+            out = []
+            for stats in itertools.product(*[W._WEAPON_POTENTIALS[t] for t in tr]):
+                boss = sum(1 for s in stats if s.boss_damage_multiplier > 0)
+                ied = sum(1 for s in stats if s.ignored_defence > 0)
+                if (emblem and boss) or boss > 2 or ied > 2:
+                    continue
+                out.append(sum(stats, Stat()))
+            return out
+        best = max(logic.get_damage_factor(ref + a + b + c, armor=300)
+                   for a in cands(triples[0], False) for b in cands(triples[1], False) for c in cands(triples[2], True))
+        val = logic.get_damage_factor(ref + sum((o.stat for p in got for o in p.options), Stat()), armor=300)
+        if val < best * (1 - 1e-9):
+            findings.append(dict(desc, what="C19: the weapon-potential result of the preset optimizer is not the best legal combination of the "
+                                 "per-slot tiers", value=val, best=best))
+            break
+    return findings, {"preset_weapon_potential_runs": runs}
